@@ -65,7 +65,7 @@ def check(spec, ctx):
     nrec = len(spec["recordings"])
     rels = [r["path"] for r in spec["recordings"]]
     nested = any("/" in r for r in rels)
-    doc = str(d / "doc18.json")
+    doc = str(d / ["doc18.json", "doc18.v2.json", "site.2024-05-01.json"][len(json.dumps(spec, default=str)) % 3])
 
     # ---- passthrough: no audio directory -------------------------------------------------
     if spec["mode"] == "passthrough" or nrec == 0:
@@ -180,6 +180,19 @@ def _relocation(spec, ctx, io, graphs, A, B, rec_root, arg, nested, doc):
             f"{spec['ctype']}: saved under A, loaded under B: recording {bad} has path {str(got.get(bad))!r}, expected {str(want.get(bad))!r}",
             spec, {k: str(v) for k, v in got.items()}, {k: str(v) for k, v in want.items()}, kind="relocate",
         )
+    # loading under a RELATIVE directory that is called like the first folder(s) of a stored path (an archive laid out as audio/<site>/...,
+    # loaded from inside a folder that is itself called audio): the directory is joined in front all the same
+    nested_rel = next((rel for rel in want_rel.values() if len(rel.parts) > 1), None)
+    if nested_rel is not None:
+        for depth in (1, len(nested_rel.parts) - 1):
+            B2 = Path(*nested_rel.parts[:depth])
+            loaded2 = ctx.call(spec, f"io.load(audio_dir={str(B2)!r})", io.load, doc, audio_dir=arg(B2))
+            got2 = {str(r.uuid): Path(r.path) for r in graphs.walk(loaded2)["recording_objects"]}
+            want2 = {u: B2.joinpath(*rel.parts) for u, rel in want_rel.items()}
+            if got2 != want2:
+                bad = next((u for u in want2 if got2.get(u) != want2[u]), None)
+                ctx.fail(f"{spec['ctype']}: loaded under the relative directory {str(B2)!r}: recording {bad} (stored as {str(want_rel.get(bad))!r}) has path {str(got2.get(bad))!r}, expected {str(want2.get(bad))!r}", spec, str(got2.get(bad)), str(want2.get(bad)), kind="relocate_overlapping_names")
+        ctx.label("load_under_dir_named_like_stored_prefix")
     # loading under A again restores the original paths (save/load with the same directory)
     back = ctx.call(spec, "io.load(audio_dir=A)", io.load, doc, audio_dir=arg(A))
     got_a = {str(r.uuid): Path(r.path) for r in graphs.walk(back)["recording_objects"]}
